@@ -835,6 +835,30 @@ def run(chk):
 
     from verif import fallthrough
     fallthrough.run(chk, "C03", floor=2)
+    # ---- C03.atstep: a per-step query of Schedule answers from that step
+    r_as = chk.rule("C03.atstep", "a const member function (a query) of Schedule that takes a report step / time step parameter (an integer parameter named report_step, reportStep, timeStep, time_step or step) answers from that step: it never calls getWellatEnd / getWellsatEnd / getGroupatEnd and never reads snapshots.back() - mixing step-k groups with last-step wells makes the answer for step k depend on the input of later steps", floor=12)
+    sfx = chk.facts(["opm/input/eclipse/Schedule/Schedule.cpp"])
+    for f in sfx.fns:
+        if not f.get("body") or not f["file"].endswith("Schedule/Schedule.cpp") or (f.get("cls") or "") != "Opm::Schedule":
+            continue
+        stepp = [p_["n"] for p_ in f.get("params") or [] if p_.get("n") in ("report_step", "reportStep", "timeStep", "time_step", "step", "reportstep") and re.search(r"int|size_t|long|unsigned", p_.get("t") or "")]
+        if not stepp or not (f.get("const") or (f.get("sig") or "").rstrip().endswith("const")):
+            continue          # queries only: while the schedule is built, the mutators use back() as the current step
+        bad_ = []
+        for n in walk(f["body"]):
+            m_, o_ = meth(n)
+            if m_ in ("getWellatEnd", "getWellsatEnd", "getGroupatEnd"):
+                bad_.append((n.get("l"), m_))
+            elif m_ == "back" and o_ is not None and show(strip(o_)) == "this.snapshots":
+                # the clamp `step < snapshots.size() ? snapshots[step] : snapshots.back()` (also as if / else) is a read at the step
+                if re.search(r"\(%s (<|>=) this\.snapshots\.size\(\)\)" % re.escape(stepp[0]), show(f["body"])):
+                    continue
+                bad_.append((n.get("l"), "snapshots.back()"))
+        key = "%s@%d" % (f["q"], f["l"])
+        chk.instance(r_as, key, sample=dict(function=f["q"], step_parameter=stepp, end_state_reads=len(bad_)))
+        for ln, what in bad_:
+            chk.violation(r_as, key, "%s takes the step `%s` but reads the END of the schedule (%s): its answer for an earlier step changes when later input changes" % (f["q"], stepp[0], what), f["file"], ln)
+
     # ---- C03.backflow: nothing flows from the last snapshot into an earlier one
     r_bf = chk.rule("C03.backflow", "Schedule.cpp: a statement that writes to an indexed snapshot `snapshots[k]` (a non-const member call or assignment through it) takes nothing from `snapshots.back()` - neither directly nor through a local reference bound to it: once the whole SCHEDULE section has been iterated, back() is the last report step, so the state at step k would depend on input of later steps.  ", floor=10)
     bfx = chk.facts(["opm/input/eclipse/Schedule/Schedule.cpp"])
